@@ -169,3 +169,50 @@ pub fn emit(req: &str, ans: &str) {
 pub fn quick(tier: &str) -> bool {
   tier != "thorough"
 }
+
+/// Byte strings that a text-normalisation step (BOM stripping, trimming, NUL padding, case folding,
+/// Unicode normalisation, lossy UTF-8 decoding, percent-decoding, leading zeros) would identify with
+/// `base` although they are different byte strings. The base itself comes first. All members are
+/// pairwise different.
+pub fn normalisation_family(base: &[u8]) -> Vec<Vec<u8>> {
+  let mut fam: Vec<Vec<u8>> = vec![base.to_vec()];
+  let pre = |p: &[u8]| {
+    let mut v = p.to_vec();
+    v.extend_from_slice(base);
+    v
+  };
+  let suf = |p: &[u8]| {
+    let mut v = base.to_vec();
+    v.extend_from_slice(p);
+    v
+  };
+  // byte-order marks and invisible characters in front
+  for p in [&[0xefu8, 0xbb, 0xbf][..], &[0xfe, 0xff], &[0xff, 0xfe], &[0xe2, 0x80, 0x8b], &[0xc2, 0xa0], b" ", b"\t", b"\n", b"\r\n", &[0u8], b"0", b"+", b"/", b"0x"] {
+    fam.push(pre(p));
+  }
+  // the same behind
+  for p in [b" ".as_slice(), b"\t", b"\n", b"\r\n", &[0u8], &[0, 0, 0, 0], b"/", b".", &[0xef, 0xbb, 0xbf], &[0xe2, 0x80, 0x8b], &[0x80], &[0xff]] {
+    fam.push(suf(p));
+  }
+  // the prefix alone (a measurement that IS the mark)
+  fam.push(vec![0xef, 0xbb, 0xbf]);
+  fam.push(vec![0xfe, 0xff]);
+  // case
+  fam.push(base.to_ascii_uppercase());
+  fam.push(base.to_ascii_lowercase());
+  // Unicode forms of one text: composed / decomposed, and an over-long / invalid rendering
+  fam.push(suf(&[0xc3, 0xa9]));
+  fam.push(suf(&[0x65, 0xcc, 0x81]));
+  fam.push(suf(b"%C3%A9"));
+  // strings that differ only inside invalid UTF-8 (a lossy decoder maps each to U+FFFD)
+  for b in [0xffu8, 0xfe, 0x80, 0xbf, 0xf8, 0xc0] {
+    fam.push(suf(&[b]));
+    let mut v = base.to_vec();
+    v.insert(base.len() / 2, b);
+    fam.push(v);
+  }
+  fam.push(suf(&[0xef, 0xbf, 0xbd]));
+  let mut seen = std::collections::BTreeSet::new();
+  fam.retain(|v| seen.insert(v.clone()));
+  fam
+}
